@@ -52,7 +52,9 @@ def run(rep, tier, seed):
         npd = dict(n_pdesc(pd), dir=DIRC[d])
         applies = [nr for nr in nrs if ref_rule_applies(npd, nr)]
         for strat in (MatchStrategy.FIRST, MatchStrategy.BEST):
-            res_ = with_timeout(lambda: cm.compress(Buffer(pkt, len(pkt) * 8), direction=d, match_strategy=strat))
+            # the strategy as configuration files give it: by value ('first' / 'best'; MatchStrategy is a str enumeration) in a third of the calls
+            strat_arg = strat if i % 3 else str.__str__(strat.value)
+            res_ = with_timeout(lambda: cm.compress(Buffer(pkt, len(pkt) * 8), direction=d, match_strategy=strat_arg))
             out = obs_bits(res_)
             from schc_run import bytes_cm_compress
             bytes_cm_compress(b, 'manager-compress', stack, pkt, d, strat == MatchStrategy.FIRST, ctx_.ruleset, res_)
